@@ -29,7 +29,7 @@ ASSUMPTIONS = ["faults inside cease/exit/clean callbacks are not generated (outs
                "scheduler-level interrupts are injected only where do() is designed to survive them (loop body, recur), never inside exit()"]
 NSHARDS = {"quick": 8, "thorough": 16}
 REQUIRE = {"doers_judged": 10000, "path:completion": 200, "path:limit": 200, "path:recur-raise": 200, "path:enter-raise": 200,
-           "path:extend-enter-raise": 100, "path:remove": 200, "path:kbint-in-doer": 200, "path:kbint-sched": 200, "path:hook-acts": 150, "path:extend-idle-always": 150, "path:extend-present": 150,
+           "path:extend-enter-raise": 100, "path:remove": 200, "path:kbint-in-doer": 200, "path:kbint-sched": 200, "path:hook-acts": 150, "path:extend-idle-always": 150, "path:extend-present": 150, "runs_through_ado": 400, "clean_hooks_raised": 60,
            "terminal:clean": 1000, "terminal:cease": 1000, "terminal:abort": 300, "failpoints_fired": 150}
 
 
@@ -38,7 +38,18 @@ def cases(tier, seed, shard, nshards):
     n = (4000 if tier == "quick" else 80000) // nshards
     for i in range(n):
         path = faults.PATHS[i % len(faults.PATHS)]
-        yield faults.make_case(rng, path)
+        case = faults.make_case(rng, path)
+        prog = case["prog"]
+        if path != "kbint-sched" and rng.random() < 0.25:
+            prog["runner"] = "ado"        # the asyncio entry point must give every doer the same lifecycle
+        if rng.random() < 0.12:
+            # a Doer subclass whose own clean hook raises after it finished by itself
+            cands = [lf for lf in gen_sched.leaves_of(prog["doers"])
+                     if lf["kind"] in ("doer", "redoer") and (lf.get("end") and lf["end"][1] == "return" or lf.get("enter") == "finish")]
+            if cands:
+                rng.choice(cands)["clean_raise"] = True
+                case["clean_raise"] = True
+        yield case
     if tier == "thorough":
         for _ in range(400 // nshards + 1):
             base = gen_sched.gen_prog(rng, dyadic=True, nmax=5, depth=2, group_p=0.4, group_tocks=(0.0, 0.5),
@@ -66,7 +77,7 @@ def must_abort(run, did):
     """a DoDoer must abort iff an exception left one of its children while it was running them"""
     spec = run.specs[did]
     if spec["kind"] != "dodoer":
-        return run.state[did].outcome in ("raised", "kbint")
+        return run.state[did].outcome in ("raised", "kbint") or run.state[did].clean_raised
     return any(must_abort(run, c["id"]) for c in spec.get("doers", []) if run.state[c["id"]].enters) or \
         run.state[did].outcome == "child-raised"
 
@@ -156,6 +167,9 @@ def run_case(case, ctx):
     if extra.get("fired_at"):
         ctx.count("failpoints_fired")
         ctx.seen("failpoint_lines", extra["fired_at"])
+    if case["prog"].get("runner") == "ado":
+        ctx.count("runs_through_ado")
+    ctx.count("clean_hooks_raised", sum(1 for st in run.state.values() if st.clean_raised))
     contexts = judge(run, ctx, case, extra)
     ctx.seen("run_results", run.result)
     if contexts and len(contexts) >= 2:
